@@ -264,6 +264,33 @@ def match_finding(findings, key):
     return None
 
 
+class TimeLimit(BaseException):
+    """raised by time_limit; a BaseException so that `except Exception` in case code does not swallow it"""
+
+
+class time_limit:
+    """`with time_limit(20): ...` raises TimeLimit after the given seconds (SIGALRM).
+    Lcapy/SymPy calls occasionally do not return; such cases are counted, never reported."""
+
+    def __init__(self, seconds):
+        self.seconds = int(seconds)
+
+    def __enter__(self):
+        import signal
+
+        def handler(signum, frame):
+            raise TimeLimit('time limit %ds' % self.seconds)
+        self.old = signal.signal(signal.SIGALRM, handler)
+        signal.alarm(self.seconds)
+        return self
+
+    def __exit__(self, *a):
+        import signal
+        signal.alarm(0)
+        signal.signal(signal.SIGALRM, self.old)
+        return False
+
+
 # --------------------------------------------------------------------------- the check object
 
 class Check:
@@ -389,7 +416,26 @@ class Check:
     def finish(self):
         if self.driver is not None:
             self.driver.close()
-        self.coverage['distinct_nontrivial'] = len(self._distinct)
+        if self._distinct or not self.coverage.get('distinct_nontrivial'):
+            self.coverage['distinct_nontrivial'] = len(self._distinct)
+        # keep the typed keys of EVIDENCE.schema.json well-typed whatever a harness stored there
+        cov = self.coverage
+        if 'exhaustive' in cov and not isinstance(cov['exhaustive'], bool):
+            cov['exhaustive_detail'] = cov['exhaustive']
+            cov['exhaustive'] = bool(cov['exhaustive'])
+        for k in ('evaluations', 'distinct_nontrivial', 'obligations', 'discharged', 'states', 'transitions',
+                  'traces_validated_against_impl', 'programs', 'disagreements_checked'):
+            if k in cov and not isinstance(cov[k], int):
+                try:
+                    cov[k] = int(cov[k])
+                except Exception:
+                    cov[k + '_detail'] = cov.pop(k)
+        if not isinstance(cov.get('samples', []), list):
+            cov['samples'] = [cov['samples']]
+        if not isinstance(cov.get('rule', ''), str):
+            cov['rule'] = json.dumps(cov['rule'])
+        cov['trusted_base'] = [str(x) for x in cov.get('trusted_base', [])]
+        cov['checker_cmd'] = str(cov.get('checker_cmd', ''))
         ev = {'property_id': self.pid, 'tier': self.tier, 'seed': self.seed, 'level': 'proof',
               'coverage': self.coverage, 'assumptions': self.assumptions,
               'wall_s': round(time.time() - self.t0, 2), 'violations': len(self.violations)}
